@@ -40,6 +40,16 @@ def gen_prim(rng, allow_layers=True):
     return ("ell", c, r)
 
 
+def scale_shape(s, f):
+    """every length of a shape description multiplied by f (a power of two: exact)"""
+    if s[0] in ("sph", "lsph", "ell"):
+        return (s[0], [v * f for v in s[1]], [v * f for v in s[2]])
+    return (s[0], scale_shape(s[1], f), scale_shape(s[2], f))
+
+
+UNITS = [1.0, 1.0, 2.0 ** -20, 2.0 ** -30, 2.0 ** 10]     # microns, ~metres, ~millimetres..., exact powers of two
+
+
 def gen_shape(rng, depth):
     if depth == 0 or rng.random() < 0.3:
         return gen_prim(rng, allow_layers=False)
@@ -167,6 +177,12 @@ def stage_containment(ctx):
         t = [dy(rng, -3, 3) for _ in range(3)]
         while len(set(t)) < 3:
             t = [dy(rng, -3, 3) for _ in range(3)]
+        unit = rng.choice(UNITS)                 # the same geometry expressed in another length unit
+        if unit != 1.0:
+            s = scale_shape(s, unit)
+            pts = [[v * unit for v in p_] for p_ in pts]
+            t = [v * unit for v in t]
+        ctx.count("unit:2^%d" % round(math.log2(unit)))
         CENTER_FORM[0] = rng.choice(["tuple", "tuple", "list", "ndarray", "ndarray"])
         try:
             obj = build(s)
@@ -193,7 +209,7 @@ def stage_containment(ctx):
         cont_t = [bool(x) for x in tr.contains(P + np.array(t))]
         # a translated copy translated again, then the ORIGINAL and the first copy looked at once more: translated() returns a
         # new scatterer and leaves the one it was called on where it was (whatever container holds the centre)
-        t2 = [dy(rng, -2, 2) or 0.5 for _ in range(3)]
+        t2 = [(dy(rng, -2, 2) or 0.5) * unit for _ in range(3)]
         tr2 = tr.translated(np.array(t2)) if k % 2 else tr.translated(*t2)
         ctx.explored += 1
         ctx.count("center-form:" + CENTER_FORM[0])
@@ -340,6 +356,9 @@ def stage_overlaps(ctx):
     exprs, metas = [], []
     for k in range(ctx.n(200, 3000)):
         ms = gen_cluster(rng)
+        unit = rng.choice(UNITS)
+        ms = [([v * unit for v in c], r * unit) for c, r in ms]
+        ctx.count("unit:2^%d" % round(math.log2(unit)))
         warn = rng.random() < 0.7
         layered = rng.random() < 0.2
         objs = []
